@@ -60,7 +60,7 @@ def domain_assignments(rng, t):
     return out
 
 
-def run(ctx, ndocs, nassign, lfs, prefix, with_model=True):
+def run(ctx, ndocs, nassign, lfs, prefix, with_model=True, judge=('C02', 'C08')):
     rng = ctx.rng
     p = None
     lines_all = []
@@ -141,7 +141,7 @@ def run(ctx, ndocs, nassign, lfs, prefix, with_model=True):
                 if bad:
                     break
                 lines.append((f'S update 1 {vid[id(t)]} {enc_text(new)}', 'ok ' + dump()))
-            if bad:
+            if bad and bad[0].split(':')[0] in judge:
                 ctx.oracle_fail(bad[0], bad[1], rep)
             replays.append(rep)
             lines_all.append(lines)
